@@ -6,6 +6,8 @@
 (* discipline of ThreadLock.tla iff, while worker threads exist (between   *)
 (* ThreadsSpawned and ThreadsJoined), every access to a guarded object has *)
 (* held = TRUE; unguarded accesses are legal only in the sequential phases.*)
+(* A `Race` event (a data race reported by the ThreadSanitizer build) is    *)
+(* never accepted.                                                          *)
 (* IOEnv.TRACE: ndjson of [e, obj, held, tid, label]; e = "Header" starts  *)
 (* a run.                                                                   *)
 (***************************************************************************)
@@ -28,6 +30,10 @@ Step ==
        [] E.e = "Access"         -> /\ E.obj \in Guarded
                                     /\ par => E.held           \* the discipline
                                     /\ par' = par /\ n' = n + 1
+       \* reported by the ThreadSanitizer build of the same tree: two conflicting accesses to the same memory, at least
+       \* one of them a write, with no common lock and no happens-before order. ThreadLock's NoRace forbids exactly
+       \* that for every object, so no behaviour of the discipline contains such an event.
+       [] E.e = "Race"           -> FALSE
        [] OTHER                  -> par' = par /\ n' = n
 
 Spec == Init /\ [][Step]_<<l, par, n>>
